@@ -264,6 +264,9 @@ pub struct Run {
     pub restart_since_fork: bool,
     /// first trigger of a suspected divergence mechanism seen in this history
     pub taint: Option<&'static str>,
+    /// the running import is skipped by the importer although the database needs work: explains a divergence found
+    /// right after it (takes precedence over an older trigger)
+    pub skip_key: Option<&'static str>,
     pub labels: BTreeSet<String>,
     pub shape: Vec<String>,
     pub nontrivial: bool,
@@ -312,6 +315,7 @@ impl Run {
             fork_since_import: false,
             restart_since_fork: false,
             taint: None,
+            skip_key: None,
             labels: BTreeSet::new(),
             shape: vec![],
             nontrivial: false,
@@ -476,7 +480,7 @@ impl Run {
     }
 
     fn key_for(&self, table: &str) -> String {
-        match self.taint {
+        match self.skip_key.or(self.taint) {
             Some(k) => k.to_string(),
             None => format!("divergence:{table}"),
         }
@@ -652,15 +656,16 @@ impl Run {
         }
         let chain_before = self.chain();
         let ctx = format!("op #{i} Import({t})");
+        self.skip_key = None;
         if pre_hi.is_some_and(|h| h >= t) {
             if pre_stale {
                 self.labels.insert("trigger:import-skipped-with-stale-data".into());
-                self.taint.get_or_insert(KEY_SKIP);
+                self.skip_key = Some(KEY_SKIP);
             } else {
                 let (exp_roots, exp_legacy) = expected_roots(&chain_before, t);
                 if pre.roots.len() < exp_roots.len() || pre.legacy_roots.len() < exp_legacy.len() {
                     self.labels.insert("trigger:import-skipped-with-missing-range-roots".into());
-                    self.taint.get_or_insert(KEY_SKIP_ROOTS);
+                    self.skip_key = Some(KEY_SKIP_ROOTS);
                 }
             }
         }
@@ -766,7 +771,7 @@ impl Run {
                     return Verdict::Ok;
                 }
                 self.shape.push(format!("I!{tag}"));
-                let key = match self.taint {
+                let key = match self.skip_key.or(self.taint) {
                     Some(k) => k.to_string(),
                     None => "import-error".to_string(),
                 };
@@ -774,6 +779,10 @@ impl Run {
             }
             Ok(()) => {
                 let v = self.oracle(t, beacons, &ctx).await;
+                if matches!(v, Verdict::Ok) {
+                    // the whole database equals the expectation: whatever a trigger did has left no trace
+                    self.taint = None;
+                }
                 if ran {
                     self.fork_since_import = false;
                     self.restart_since_fork = false;
@@ -928,15 +937,18 @@ pub fn run(args: &Args) -> i32 {
             "a case = stack configuration (poll size, chunk size, pruning, security parameter) + a history of <= 25 operations \
              (Extend, Fork by selector, Import with optional mid-import chain switch and optional store failure at the j-th \
              mutating call followed by a restart, Restart) executed against the real importer stack over a file-backed sqlite \
-             database and a chain-sync model; non-trivial = the history contains a successful, oracle-checked import after a \
-             fork below the highest stored block, or after a restart between a fork and the import, or with a chain switch \
-             during the import; distinct = distinct sequence of operation outcome tags",
+             database and a chain-sync model; non-trivial = the history contains an import that talked to the node while the \
+             database held blocks of an abandoned branch (fork below the highest stored block), or after a restart between a \
+             fork and the import, or on a new connection whose resume point is no longer on the chain, or with a chain switch \
+             during the import; distinct = distinct sequence of operation outcome tags (+ pruning on/off)",
         )
         .assume("SimNode models the chain-sync follower contract of the real PallasChainReader (validated against the repo's FakeChainReader scenarios in section simnode-validation)")
         .assume("chain switches never shorten the chain (Ouroboros chain selection); block numbers are consecutive; no block at slot 0")
         .assume("with pruning enabled no chain switch is deeper than the number of blocks to keep (documented meaning of network_security_parameter)")
         .assume("MKTree / MKMap (mithril-common crypto_helper) are the trusted base of the independent root recomputation")
         .assume("a store failure is injected before the call reaches the database; each store call is one sqlite transaction")
+        .assume("targets are non-decreasing and <= tip; while the database holds rolled-back blocks or lacks block range roots, only the `Same` target selector asks for a target that does not exceed the stored data (two open findings), every other selector is raised above it, as the callers' next beacon is once the chain has grown")
+        .assume("an import that returns an error without an injected store failure or a reader time-out is a violation (a healthy node and store must be importable)")
         .assume("beacons compared for import-progress independence are aligned (b mod 15 in {0, 14}) as produced by the signing configurations with a step multiple of 15")
         .require_label("fork-below-highest-stored-then-import")
         .require_label("fork:at-range-boundary")
@@ -957,7 +969,7 @@ pub fn run(args: &Args) -> i32 {
         check.note_section("simnode-validation", serde_json::json!({"scenarios": validate::SCENARIOS, "kind": "model validation", "result": "ok"}));
     }
 
-    check.section("histories", case_strategy, t.pick(240, 8000), run_case);
+    check.section("histories", case_strategy, t.pick(1000, 30000), run_case);
 
     for (key, what, case) in witnesses() {
         check.witness(key, what, || matches!(run_case(&case).outcome, vcore::Outcome::Violation { key: k, .. } if k == key));
